@@ -399,7 +399,9 @@ impl Property for C10 {
                     if !keys.is_empty() {
                         // exact lookup on the reused list, then on-demand splits of what it found: everything must
                         // equal the same calls on a fresh list (the list keeps a field request of its own)
-                        let query = keys[ix(*q, keys.len())].clone();
+                        // every fourth lookup asks for the text the list holds right now (its own last analysis)
+                        let held = list.surface().to_string();
+                        let query = if *q % 4 == 0 && !held.is_empty() && held.len() < 200 { held } else { keys[ix(*q, keys.len())].clone() };
                         let s = subset.unwrap_or(InfoSubset::all());
                         list.clear();
                         let mut fresh = MorphemeList::empty(&dict);
